@@ -42,11 +42,14 @@ def reset (i : Inst) : State :=
 /-- `td["visited"][..., 1:].int().sum(-1)` -/
 def visitedCustomers (i : Inst) (s : State) : Nat := cnt i.n (fun k => s.vis (k + 1))
 
+/-- the literal of `cur_total_prize < 1.0`, in ticks (`req` = tick value of 1.0) -/
+def maskReq (i : Inst) : Int := i.req * Params.pctspMaskPrizeConst.1 / Params.pctspMaskPrizeConst.2
+
 /-- `get_action_mask` (True = feasible): customers `~(visited | visited[0])`; the depot is masked
 while `cur_total_prize < 1.0` and some customer is unvisited. -/
 def mask (i : Inst) (s : State) (a : Nat) : Bool :=
   if a = 0 then
-    !(Params.pctspMaskPrizeCmp.eval s.tot i.req &&
+    !(Params.pctspMaskPrizeCmp.eval s.tot (maskReq i) &&
       Params.pctspMaskCountCmp.evalNat (visitedCustomers i s) i.n)
   else !(s.vis a || s.vis 0)
 
@@ -68,21 +71,34 @@ def env : Env Inst State where
   step := step
   done := done
 
+/-- the single-column test `actions.size(-1) == 1` at the top of `_get_reward` -/
+def rewardSpecial (as : List Nat) : Bool :=
+  Params.pctspRewardSpecialCmp.evalNat as.length Params.pctspRewardSpecialWidth
+
+/-- `td["penalty"][..., 1:].sum(-1)` over the depot-padded penalty row (`n+1` entries): first index and
+number of trailing entries cut off are the extracted slice bounds -/
+def totalPenalty (i : Inst) : Int :=
+  sumTo (i.n + 1 - Params.pctspPenaltySlice.1 - Params.pctspPenaltySlice.2)
+    (fun k => padded i.pen (k + Params.pctspPenaltySlice.1))
+
 /-- `_get_reward`: `saved_penalty.sum − (length([depot] ++ locs[actions]) + penalty[1:].sum)`; a
 batch whose action tensor has a single column returns 0. -/
 def reward (i : Inst) (as : List Nat) : Int :=
-  if as.length = 1 then 0
-  else gatherSum i.pen as - (rollLen i.D (0 :: as) + sumTo i.n (fun k => i.pen (k + 1)))
+  if rewardSpecial as then 0
+  else gatherSum i.pen as - (rollLen i.D (0 :: as) + totalPenalty i)
 
-/-- the assertion inside the single-column special case of `_get_reward` -/
-def rewardAssert (as : List Nat) : Bool := as.length != 1 || as == [0]
+/-- the assertion `(actions == 0).all()` inside the single-column special case of `_get_reward` -/
+def rewardAssert (as : List Nat) : Bool := !(rewardSpecial as) || as.all (· == 0)
+
+/-- the literal `1` of the checker's `p.sum(-1) >= 1 - 1e-5`, in ticks -/
+def checkReq (i : Inst) : Int := i.req * Params.pctspCheckPrizeBase.1 / Params.pctspCheckPrizeBase.2
 
 /-- `check_solution_validity` (True = no assertion raised, no gather out of range); `tol` is the tick
 value of `1e-5`. -/
 def check (i : Inst) (tol : Int) (as : List Nat) : Bool :=
   as.all (fun a => decide (a ≤ i.n)) &&
   adjOk (sortNat as) &&
-  (Params.pctspCheckPrizeCmp.eval (gatherSum (realPrize i) as) (i.req - tol) ||
+  (Params.pctspCheckPrizeCmp.eval (gatherSum (realPrize i) as) (checkReq i - tol) ||
     decide (as.length - as.count 0 = i.n))
 
 end Rl4co.Pctsp
